@@ -184,6 +184,7 @@ impl Engine for C06 {
                 (format!("failing:{}", d.1), Doc::from_str(&d.0), Cfg::default())
             }
             6 if index % 16 == 6 => ("real-svg".to_string(), Doc::from_str(&docgen::real_svg_doc(&mut w)), docgen::draw_cfg(&mut c, false)),
+            7 if index % 16 == 15 => ("intl".to_string(), Doc::from_str(&docgen::intl_doc(&mut w)), docgen::draw_cfg(&mut c, false)),
             5 if index % 16 == 5 => ("crlf".to_string(), Doc::from_str(&docgen::crlf_doc(&mut w)), docgen::draw_cfg(&mut c, false)),
             7 if index % 16 == 7 => ("failing:many".to_string(), Doc::from_str(&docgen::many_failures_doc(&mut w)), Cfg::default()),
             6 if index % 16 == 14 => ("odd-config".to_string(), Doc::from_str(&docgen::odd_config_doc(&mut w)), docgen::draw_cfg(&mut c, false)),
@@ -313,7 +314,7 @@ impl Engine for C06 {
         }
         // the server: one real svgdx-server process, several clients sending the same document
         // at the same moment, twice (only a configuration the endpoint can express)
-        if (index % 16 == 9 || (tier == Tier::Thorough && index % 16 == 3)) && doc.as_str().is_some() {
+        if (index % 16 == 9 || index % 16 == 15 || (tier == Tier::Thorough && index % 16 == 3)) && doc.as_str().is_some() {
             cfg = Cfg::default();
             incs.push(Inc {
                 kind: "server-burst".into(),
@@ -574,7 +575,13 @@ impl Engine for C06 {
                         }
                     };
                     let n = inc.interfere.max(2) as usize;
-                    let all = http_burst(srv.port, &scn.doc.0, None, n, 2, Duration::from_secs(30));
+                    let mut all = http_burst(srv.port, &scn.doc.0, None, n, 2, Duration::from_secs(30));
+                    // and four single requests put on the wire in unusual but valid ways
+                    for k in 0..4u64 {
+                        set_http_style(inc.entropy.wrapping_add(k) | 1);
+                        all.push(srv.post(&scn.doc.0, None, Duration::from_secs(30)));
+                    }
+                    set_http_style(0);
                     let alive = srv.alive();
                     drop(srv);
                     res.stats.frontend("server-burst");
